@@ -20,6 +20,8 @@ pub mod common;
 mod reader;
 mod shm_header;
 mod writer;
+#[cfg(clockbound_verif)]
+pub mod verif;
 
 use errno::Errno;
 use nix::sys::time::{TimeSpec, TimeValLike};
